@@ -83,7 +83,7 @@ def corpus(ctx):
     out.append(('witness', b'cmd p(a|b)(c|d) | q(b|a)(d|c) | r(c|d)(a|b);\n'))
     # permuted / duplicated within-word expressions: the shape on which interning decisions matter
     lits = ['a', 'b', 'c', 'dd', 'e']
-    for _ in range(30 if quick else 600):
+    for _ in range(30 if quick else 200):
         k = r.choice([2, 3, 4])
         alts = r.sample(lits, r.choice([2, 3]))
         words = []
@@ -97,11 +97,11 @@ def corpus(ctx):
             tail = r.choice(['', '', '(%s)' % ' | '.join(r.sample(lits, 2))])
             words.append('%s%s%s t%d' % (pre or 'z', body, tail, i))
         out.append(('permuted', ('cmd ' + ' | '.join(words) + ';\n').encode()))
-    for _ in range(20 if quick else 400):
+    for _ in range(20 if quick else 150):
         stmts = planted.warn_case(r) if r.random() < 0.4 else planted.Clean(r, depth=3).build(nvariants=2)
         out.append(('random', ('\n'.join(stmts) + '\n').encode('latin-1')))
     g = gen.Gen(r, max_depth=5)
-    for _ in range(10 if quick else 200):
+    for _ in range(10 if quick else 50):
         out.append(('random-deep', gen.show_grammar(g.grammar(ndefs=3)).encode('latin-1')))
     return out
 
@@ -117,7 +117,7 @@ def run(ctx, res):
     cs = corpus(ctx)
     r = ctx['rng']
     quick = ctx['tier'] == 'quick'
-    R = 150 if quick else 1500
+    R = 150 if quick else 600
     # ---- in-process repetition (one process per grammar: the text repeated R times)
     texts = []
     for kind, t in cs:
@@ -156,8 +156,8 @@ def run(ctx, res):
             else:
                 res.traces_validated += rep
     # ---- fresh processes with differing environments
-    K = 4 if quick else 16
-    sample = [c for c in cs if c[0] != 'random-deep'][: (40 if quick else 400)]
+    K = 4 if quick else 8
+    sample = [c for c in cs if c[0] != 'random-deep'][: (40 if quick else 200)]
     jobs, meta = [], []
     for ci, (kind, t) in enumerate(sample):
         sh = SHELLS[ci % 4] if quick else None
